@@ -4,7 +4,7 @@ SPEC = {
     "lean_modules": ["SemaModel.C02.Props"],
     "lean_dirs": ["SemaModel/C02"],
     "harness": "c02",
-    "harness_args": {"quick": ["-shards", 16, "-batches", 14, "-searches", 16],
+    "harness_args": {"quick": ["-shards", 48, "-batches", 14, "-searches", 18],
                      "thorough": ["-shards", 160, "-batches", 22, "-searches", 24]},
     "timeout": {"quick": 600, "thorough": 3000},
     "level": "proof",
@@ -13,6 +13,7 @@ SPEC = {
         "Sema.C02.C02_change", "Sema.C02.C02_array_change", "Sema.C02.C02_search", "Sema.C02.C02_search_array",
         "Sema.C02.C02_int_search", "Sema.C02.C02_float_search", "Sema.C02.C02_string_search", "Sema.C02.C02_stringArray_search",
         "Sema.C02.C02_step", "Sema.C02.C02_history", "Sema.C02.C02_tree", "Sema.C02.C02_exact",
+        "Sema.C02.C02_id_lookup", "Sema.C02.C02_lacking_field", "Sema.C02.C02_rejected_unchanged",
     ],
     "trusted_base": [
         "SemaModel/C02/Model.lean is a hand transcription of inverted.go, string.go, array.go, dispatch.go/utils.go (getOperation, casts) and search.go; tied to the code by the correspondence run only (answers and bucket dumps)",
